@@ -129,6 +129,8 @@ func propC05(w *World, r *Report) {
 	checkCallDepth(w, r, p, fn, caseConsts)
 	checkPerFD(w, r)
 	checkDecodeSem(w, r)
+	checkStackSem(w, r)
+	checkMoveState(w, r, fn)
 
 	// ---- safety of the interpreter (shared with C02)
 	var fns []*ssa.Function
@@ -138,6 +140,7 @@ func propC05(w *World, r *Report) {
 		}
 	}
 	sort.Slice(fns, func(i, j int) bool { return fnName(fns[i]) < fnName(fns[j]) })
+	r.Conds["charstring-budget"] = condGlobalBudget(w, "(*cff.decodeInfo).decodeCharString")
 	RunBounds(w, r, "bounds", br, fns)
 	runLoopTerm(w, r, br, fns, true)
 	r.Floor("bounds", 200)
@@ -1219,4 +1222,204 @@ func sameRoot(a, b ssa.Value) bool {
 		}
 	}
 	return root(a) == root(b)
+}
+
+
+// checkMoveState: "drawing before the first moveto is an error" is decided in
+// the path-building closures of decodeCharString: the closures for lineto and
+// curveto set moveError when a piece of state says that no moveto has been
+// seen.  That state must change only in the path-building closures themselves
+// (the three closures that advance the current point); a write anywhere else —
+// in the operator loop, say, when a hint mask is recorded — makes the test
+// pass for a glyph that draws without ever moving.
+func checkMoveState(w *World, r *Report, fn *ssa.Function) {
+	r.Rule("movestate: the closures of decodeCharString that report drawing-before-moveto (they store moveError) test a location (a captured flag, or the length of a captured slice) that is written only by the closures that advance the current point; no other code of the interpreter writes it after initialisation")
+	// captured variables: FreeVar of closure -> Alloc in fn
+	binding := map[*ssa.FreeVar]ssa.Value{}
+	var closures []*ssa.Function
+	for _, b := range fn.Blocks {
+		for _, in := range b.Instrs {
+			mc, ok := in.(*ssa.MakeClosure)
+			if !ok {
+				continue
+			}
+			cf := mc.Fn.(*ssa.Function)
+			closures = append(closures, cf)
+			for i, fv := range cf.FreeVars {
+				if i < len(mc.Bindings) {
+					binding[fv] = mc.Bindings[i]
+				}
+			}
+		}
+	}
+	root := func(v ssa.Value) ssa.Value {
+		if fv, ok := v.(*ssa.FreeVar); ok {
+			if b, ok := binding[fv]; ok {
+				return b
+			}
+		}
+		return v
+	}
+	// loc: a description of the memory a value is read from / written to
+	type loc struct {
+		base  ssa.Value
+		field string
+	}
+	var locOfAddr func(a ssa.Value) (loc, bool)
+	locOfAddr = func(a ssa.Value) (loc, bool) {
+		switch x := a.(type) {
+		case *ssa.FreeVar, *ssa.Alloc:
+			return loc{base: root(x)}, true
+		case *ssa.FieldAddr:
+			// field of the object a captured pointer variable holds
+			if ld, ok := x.X.(*ssa.UnOp); ok && ld.Op == token.MUL {
+				if l, ok := locOfAddr(ld.X); ok && l.field == "" {
+					return loc{base: l.base, field: fieldName(x)}, true
+				}
+			}
+			if l, ok := locOfAddr(x.X); ok && l.field == "" {
+				return loc{base: l.base, field: fieldName(x)}, true
+			}
+		}
+		return loc{}, false
+	}
+	var locOfVal func(v ssa.Value, depth int) (loc, bool)
+	locOfVal = func(v ssa.Value, depth int) (loc, bool) {
+		if depth > 6 {
+			return loc{}, false
+		}
+		switch x := v.(type) {
+		case *ssa.UnOp:
+			if x.Op == token.MUL {
+				return locOfAddr(x.X)
+			}
+			return locOfVal(x.X, depth+1)
+		case *ssa.BinOp:
+			if _, isC := x.Y.(*ssa.Const); isC {
+				return locOfVal(x.X, depth+1)
+			}
+			if _, isC := x.X.(*ssa.Const); isC {
+				return locOfVal(x.Y, depth+1)
+			}
+		case *ssa.Call:
+			if bi, ok := x.Call.Value.(*ssa.Builtin); ok && bi.Name() == "len" {
+				return locOfVal(x.Call.Args[0], depth+1)
+			}
+		}
+		return loc{}, false
+	}
+	// stores of a closure to captured variables of a kind: "error" (the
+	// deferred error report) or "float" (the current point)
+	storesTo := func(f *ssa.Function, kind string) []*ssa.Store {
+		var res []*ssa.Store
+		for _, b := range f.Blocks {
+			for _, in := range b.Instrs {
+				if st, ok := in.(*ssa.Store); ok {
+					if _, isFV := st.Addr.(*ssa.FreeVar); !isFV {
+						continue
+					}
+					if l, ok := locOfAddr(st.Addr); ok && l.field == "" {
+						if al, ok := l.base.(*ssa.Alloc); ok {
+							et := al.Type().Underlying().(*types.Pointer).Elem()
+							switch kind {
+							case "error":
+								if types.Identical(et, types.Universe.Lookup("error").Type()) {
+									res = append(res, st)
+								}
+							case "float":
+								if bt, ok := et.Underlying().(*types.Basic); ok && bt.Kind() == types.Float64 {
+									res = append(res, st)
+								}
+							}
+						}
+					}
+				}
+			}
+		}
+		return res
+	}
+	// the closures that advance the current point
+	pathBuilder := map[*ssa.Function]bool{}
+	for _, cf := range closures {
+		if len(storesTo(cf, "float")) > 0 {
+			pathBuilder[cf] = true
+		}
+	}
+	n := 0
+	for _, cf := range closures {
+		errStores := storesTo(cf, "error")
+		if len(errStores) == 0 {
+			continue
+		}
+		for _, st := range errStores {
+			n++
+			key := r.MkKey("movestate", fnName(cf), "guard of the moveError report")
+			// the branch that guards the store
+			var cond ssa.Value
+			for b := st.Block(); b != nil && cond == nil; b = b.Idom() {
+				if id := b.Idom(); id != nil && len(id.Instrs) > 0 {
+					if ifi, ok := id.Instrs[len(id.Instrs)-1].(*ssa.If); ok && len(b.Preds) == 1 && b.Preds[0] == id {
+						cond = ifi.Cond
+					}
+				}
+			}
+			if cond == nil {
+				r.Fail("movestate", key, w.Pos(st.Pos()), "moveError is set unconditionally", nil)
+				continue
+			}
+			l, ok := locOfVal(cond, 0)
+			if !ok {
+				r.Fail("movestate", key, w.Pos(st.Pos()), "the state tested before reporting drawing-before-moveto is not a captured variable or a field of one: the rule cannot decide who writes it", nil)
+				continue
+			}
+			// every write to that location
+			bad := ""
+			writers := 0
+			check := func(f *ssa.Function) {
+				for _, b := range f.Blocks {
+					for _, in := range b.Instrs {
+						s2, ok := in.(*ssa.Store)
+						if !ok {
+							continue
+						}
+						l2, ok := locOfAddr(s2.Addr)
+						if !ok || l2 != l {
+							continue
+						}
+						if f == fn && b.Index == 0 {
+							continue // initialisation
+						}
+						if pathBuilder[f] {
+							writers++
+							continue
+						}
+						if bad == "" {
+							bad = fmt.Sprintf("%s (in %s)", w.Pos(s2.Pos()), fnName(f))
+						}
+					}
+				}
+			}
+			check(fn)
+			for _, c2 := range closures {
+				check(c2)
+			}
+			what := "the captured variable " + l.base.(interface{ Name() string }).Name()
+			if al, ok := l.base.(*ssa.Alloc); ok {
+				what = "the captured variable " + al.Comment
+			}
+			if l.field != "" {
+				what = "field " + l.field + " of " + strings.TrimPrefix(what, "the ")
+			}
+			switch {
+			case bad != "":
+				r.Fail("movestate", key, w.Pos(st.Pos()), fmt.Sprintf("%s, which decides whether a moveto has been seen, is also written at %s, outside the closures that advance the current point: after that write a glyph that draws without a moveto is accepted", what, bad), nil)
+			case writers == 0:
+				r.Fail("movestate", key, w.Pos(st.Pos()), what+" is never written by the moveto closure: every drawing operator is rejected or none is", nil)
+			default:
+				r.OK("movestate", key, w.Pos(st.Pos()), fmt.Sprintf("%s is written only by the path-building closures (%d stores)", what, writers))
+			}
+		}
+	}
+	r.Floor("movestate", 2)
+	_ = n
 }
